@@ -38,6 +38,24 @@ def builddir(*parts, clean=False):
     return d
 
 
+def put_spec(d, *relpaths):
+    """Copy specification modules into a build directory atomically (several TLC runs may share the directory
+    and read the modules while another thread installs them again)."""
+    for rel in relpaths:
+        src = os.path.join(SPEC, rel)
+        dst = os.path.join(d, os.path.basename(rel))
+        data = open(src, 'rb').read()
+        try:
+            if open(dst, 'rb').read() == data:
+                continue
+        except IOError:
+            pass
+        tmp = dst + '.%d.%s.tmp' % (os.getpid(), hashlib.md5(os.urandom(8)).hexdigest()[:6])
+        with open(tmp, 'wb') as fh:
+            fh.write(data)
+        os.replace(tmp, dst)
+
+
 class MachineryError(Exception):
     """The verification machinery itself failed (exit code 2); never a verdict."""
 
